@@ -9,3 +9,4 @@ CONSTANTS
   CanSetPoints = TRUE
 INVARIANT QueryCorrect
 INVARIANT TreeFresh
+PROPERTY RejectIsAtomic
